@@ -28,6 +28,8 @@ func c14(c *Ctx) {
 		c.Check("R1", "selftest:effect-rule-fires-on-requestVote", c.P.Pos(fn.Pos()), "the effect-freedom rule reports the real vote handler (which does change term and vote) – proof that the rule is not vacuous", len(ri.hits) >= 3, fmt.Sprintf("%d forbidden effects found in requestVote", len(ri.hits)), len(ri.hits))
 	}
 	c14R2(c, "R2")
+	sVoterOnlyBallots(c, "R2/S-VOTERS")
+	sQuorum(c, "R2/S-QUORUM")
 	c14R3(c, "R3")
 	c06R4(c, "R4/C06.R4")
 }
